@@ -106,6 +106,19 @@ def rule_matching(ctx: Ctx) -> None:
         if ib.exit and ib.exit[0] == "raise":
             ctx.check(any(k.startswith("none:") and k.endswith(".uuid") and v for k, v in ib.facts.items()), "C11-match-guard", "_get_object_results_with_id", "raise-only-on-null-uuid",
                       f"raises on [{ib.cond_text()[:80]}]", fi=fi)
+    if n == 0:
+        # the nested scan may have been replaced by an index of the ground truths: its key must be the whole pairing key (uuid AND camera frame),
+        # otherwise ground truths that share a uuid across cameras overwrite each other and a correct estimate stays unpaired
+        for nd in ast.walk(fi.node):
+            if isinstance(nd, ast.DictComp) and len(nd.generators) == 1 and S(nd.generators[0].iter).startswith("ground_truth_objects"):
+                key = S(nd.key)
+                ctx.check(".uuid" in key and ".frame_id" in key, "C11-match-guard", "_get_object_results_with_id", "gt-index-key",
+                          f"ground truths are indexed by `{key}`; objects are paired iff uuid AND frame_id agree, so an index keyed without the frame loses ground truths that share a uuid across cameras",
+                          fi=fi, expected="key = (uuid, frame_id)", found=key)
+                if not (".uuid" in key and ".frame_id" in key):
+                    n = -1
+    if n == -1:
+        return
     ctx.require(n >= 1, "_get_object_results_with_id: pairing site not found")
     # leftovers: FP results unless a traffic-light camera is involved
     for p in paths:
